@@ -116,6 +116,25 @@ def _(u):
     u.prove("symaug.distance-preserving", sqdist(out, r, i, j) == sqdist(xy, r, i, j))
 
 
+@spec(TR, "dihedral_8_augmentation_wrapper")
+def dihedral_wrapper_spec(u, selfobj, xy, reduce=True, *args, **kw):
+    """Contract (proved by transforms.dihedral8 / .wrapper): reads the first 1/8 of the rows; result row a*B+b is an
+    isometric image of input row b, copy 0 is the identity."""
+    R, N = xy.shape[0], xy.shape[1]
+    Bn = ops.simp_int(ops.scalar_binop("floordiv", R, 8, wf=False)) if reduce else R
+    _ABS[0] += 1
+    o = u.abstract(ops.const_tensor((ops.simp_int(ops.scalar_binop("mul", 8, Bn, wf=False)), N, 2), "f", 0), f"dih{_ABS[0]}")
+    xs = xy.snap()
+    src = mk(xy.shape, "f", xs)
+    for a in range(8):
+        # row r = a*B + b: stated with an explicit row variable so that instantiation is by matching o(r, i, .) and xy(b, i, .)
+        u.requires(u.forall((8 * zint(Bn), Bn, N, N),
+                            lambda r, b, i, j, a=a: IMPL(zint(r) == a * zint(Bn) + zint(b), sqdist(o, r, i, j) == sqdist(src, b, i, j)),
+                            pats=lambda r, b, i, j: [z3.MultiPattern(o.at(r, i, 0), o.at(r, j, 0), src.at(b, i, 0))]))
+    u.requires(u.forall((Bn, N, 2), lambda b, i, c: o.at(b, i, c) == xs((b, i, c))))
+    return o
+
+
 @unit("transforms.state_augmentation", file=TR, func="StateAugmentation.__call__", props=("C15", "C12"))
 def _(u):
     B, N = u.dims("B N")
@@ -123,8 +142,7 @@ def _(u):
     td = SymTD({"locs": u.tensor("locs", (B, N, 2), "f"), "demand": u.tensor("demand", (B, N), "f")}, (B,))
     for nm, fn in (("dihedral8", "dihedral_8_augmentation_wrapper"),):
         obj = u.obj(TR, "StateAugmentation", augmentation=u.interp.func(TR, fn), feats=["locs"], num_augment=K, normalize=False, first_aug_identity=True)
-        u.inline((TR, "dihedral_8_augmentation_wrapper"), (TR, "dihedral_8_augmentation"))
-        out = u.run(TR, "StateAugmentation.__call__", td, selfobj=obj)
+        out = u.run(TR, "StateAugmentation.__call__", td, selfobj=obj)  # the augmentation function is seen through its contract
         b = u.idx((B,), "b")
         i, j = u.idx((N, N), "i j")
         c = u.idx((2,), "c")
